@@ -369,6 +369,11 @@ package jrpc2
 //@   ghostvar ksrc ArrInt
 //@   at call.append#1 ghostset ksrc = store(ksrc, len(keep), rangeindex + 1)
 //@   at call.append#2 ghostset ksrc = store(ksrc, len(keep), rangeindex + 1)
+//@   ghostvar kdst ArrInt
+//@   at call.append#1 ghostset kdst = store(kdst, rangeindex + 1, len(keep))
+//@   at call.append#2 ghostset kdst = store(kdst, rangeindex + 1, len(keep))
+//@   ensures[C02:request-shaped-members-kept] forall(j int, 0 <= j && j < len(next) && reqShaped(old(next[j])) ==> 0 <= kdst[j] && kdst[j] < len(result) && result[kdst[j]] == old(next[j]))
+//@   loop 1 invariant forall(j int, 0 <= j && j <= rangeindex && reqShaped(old(next[j])) ==> 0 <= kdst[j] && kdst[j] < len(keep) && keep[kdst[j]] == old(next[j]))
 //@   ensures[C01:kept-members-in-arrival-order] forall(i int, j int, 0 <= i && i < len(result) && j == ksrc[i] ==> 0 <= j && j < len(next) && result[i] == old(next[j])) && forall(i1 int, i2 int, 0 <= i1 && i1 < i2 && i2 < len(result) ==> ksrc[i1] < ksrc[i2])
 //@   loop 1 invariant forall(i int, 0 <= i && i < len(keep) ==> 0 <= ksrc[i] && ksrc[i] <= rangeindex)
 //@   loop 1 invariant forall(i int, j int, 0 <= i && i < len(keep) && j == ksrc[i] ==> keep[i] == old(next[j]))
